@@ -931,6 +931,13 @@ func (h *fsmHandler) connectLoop(ctx context.Context) net.Conn {
 		case <-timer.C:
 			fsm.logger.Debug("try to connect")
 		}
+		if vconn, handled := verifDial(ctx, addr, port); handled {
+			if vconn != nil {
+				return vconn
+			}
+			tick = retryInterval
+			continue
+		}
 
 		laddr, err := net.ResolveTCPAddr("tcp", net.JoinHostPort(localAddress, strconv.Itoa(localPort)))
 		if err != nil {
@@ -1845,6 +1852,10 @@ func (h *fsmHandler) sendMessageloop(ctx context.Context, conn net.Conn, stateRe
 					AddPath:         fsm.familyMap.Load().(map[bgp.Family]bgp.BGPAddPathMode),
 					ExtendedMessage: fsm.extendedMessage.Load(),
 				}
+				if verifEnabled {
+					verifYield("send", fsm.pConf.ReadOnly().State.NeighborAddress.String())
+					verifTrace("coalesced", fsm.pConf.ReadOnly().State.NeighborAddress.String(), coalescedMsgs)
+				}
 				for _, msg := range table.CreateUpdateMsgFromPaths(paths, options) {
 					if err := send(msg); err != nil {
 						return nil
@@ -1963,6 +1974,9 @@ func (h *fsmHandler) recvMessageloop(ctx context.Context, conn net.Conn, holdtim
 				}
 
 				if doCallback {
+					if verifEnabled {
+						verifYield("recv", h.fsm.pConf.ReadOnly().State.NeighborAddress.String())
+					}
 					h.callback(fmsg)
 				}
 			}
